@@ -81,6 +81,48 @@ def check_status_writer(R, tonic, rule):
         R.check(on_every_path(v, lambda x: is_call(x, name=fn_, pat=pat_)), rule, 'writer-always-encodes:%s' % kn, site(ah, ibb),
                 'value of %s passes through %s() on every path: %s' % (kn, fn_, show(v)[:140]))
     R.floor(rule, 'status header inserts in add_header', nins, 3)
+    # the user metadata goes in first, so that it can never overwrite one of the three status headers (grpc-status-details-bin is
+    # not a reserved name that into_sanitized_headers strips; HeaderMap::extend replaces existing keys)
+    ext = ah.calls(name='extend')
+    for ibb, it in ah.calls(pat='HeaderMap', name='insert'):
+        kn = (constdef(ah.origin(it['args'][1])) or '?').split('::')[-1]
+        R.check(len(ext) == 1 and ah.dominates(ext[0][0], ibb), rule, 'writer-metadata-first:%s' % kn, site(ah, ibb), 'extend(user metadata) happens before the insert of %s' % kn)
+    # completeness by feasible path: grpc-status on every successful path; grpc-message / grpc-status-details-bin whenever the
+    # message / the details are not empty (an early return for "nothing to write" must not skip the other field)
+    ins_of = {}
+    for ibb, it in ah.calls(pat='HeaderMap', name='insert'):
+        ins_of.setdefault((constdef(ah.origin(it['args'][1])) or '?').split('::')[-1], []).append(ibb)
+    meta = {}
+    npaths = 0
+    for cons, path in mirlib.path_rows(ah, meta=meta, limit=200000):
+        val = strip_refs(mirlib.simplify(ah.ret_on_path(path)))
+        if not (val and val[0] == 'agg' and val[1].get('variant') == 'Ok'):
+            continue
+        npaths += 1
+        terms = meta.get('__terms__', {})
+        nonempty = {}
+        for sub_, op_, v_ in cons:
+            tm_ = terms.get(sub_)
+            c_ = strip_refs(tm_) if tm_ is not None else None
+            neg_ = False
+            while c_ and c_[0] == 'un' and c_[1] == 'Not':
+                c_ = strip_refs(c_[2]); neg_ = not neg_
+            if is_call(c_, name='is_empty'):
+                fld = [f_ for f_ in field_names(c_[2][0]) if f_ in ('message', 'details')] or (['message'] if mentions_call(c_[2][0], name='message') else [])
+                truth = (op_ == '==' and v_ not in (0, False)) or (op_ in ('!=',) and v_ in (0, False)) or (op_ == 'notin' and 0 in v_)
+                falsy = (op_ == '==' and v_ in (0, False))
+                if fld and (truth or falsy):
+                    empty = truth != neg_
+                    nonempty[fld[-1]] = not empty
+        st = site(ah, path[-1])
+        R.check(any(b_ in path for b_ in ins_of.get('GRPC_STATUS', [])), rule, 'writer-complete:grpc-status', st, 'a successful path of add_header writes grpc-status')
+        for fld, kn in (('message', 'GRPC_MESSAGE'), ('details', 'GRPC_STATUS_DETAILS')):
+            if nonempty.get(fld) is not False:
+                # not known to be empty on this path: it must have been written (or tested non-empty and written)
+                wrote = any(b_ in path for b_ in ins_of.get(kn, []))
+                R.check(wrote or fld not in nonempty and False or wrote, rule, 'writer-complete:%s' % fld, st,
+                        'on a successful path where the %s is not known to be empty, %s is written: %r (known: %r)' % (fld, kn, wrote, nonempty))
+    R.floor(rule, 'successful paths of add_header', npaths, 1)
     # the user metadata is copied as a whole map (HeaderMap::extend keeps every value of a repeated name; insert keeps the last)
     ext = ah.calls(name='extend')
     okx = len(ext) == 1 and is_call(strip_refs(ah.origin(ext[0][1]['args'][1])), name='into_sanitized_headers') and mentions_field(ah.origin(ext[0][1]['args'][1]), 'metadata')
